@@ -1,6 +1,6 @@
 """Engine A: resolved program model of /repo/discopy (stdlib only; never imports discopy)."""
 import ast, hashlib, os
-from . import alpha
+from . import alpha, helpers
 
 
 class AnchorError(Exception):
@@ -62,25 +62,44 @@ class Model:
                 self.modules[name]._path = p
                 self.noise_removed += alpha.strip_noise(self.modules[name])         # pass / assert / print / logging statements
                 self.fstrings += alpha.fstrings_to_format(self.modules[name])         # f'{a}' is '{}'.format(a)
+        # helpers extracted / nested functions moved out since the rules were confirmed are put back (sa/helpers.py), across modules
+        exits = helpers.load_exits()
+        self.renested = helpers.renest_moved_functions(self.modules, exits)
+        self.helpers_inlined = helpers.inline_new_helpers(self.modules, exits)
+        for t_ in self.modules.values():
+            helpers.unstar_literals(t_)
+        ifs_table, neg_guards, param_rebinds = helpers.load_ifs(), helpers.load_neg_guards(), helpers.load_param_rebinds()
+        self.hoisted_inlined, self.one_armed_merged = [], 0
+        for name in list(self.modules):
+            if True:
+                if True:
+                    pass
                 alpha.split_tuple_assigns(self.modules[name])                         # one binding per statement
                 for _ in range(4):
                     if not alpha.unnest_else_after_leave(self.modules[name]):         # else after a branch that always leaves = the rest of the block
                         break
                 alpha.normalise_polarity(self.modules[name])                          # no `if not c ... else ...`
+                helpers.swap_negated_final_guard(self.modules[name], neg_guards.get(name, set()))                    # if not c: return A ; return B
                 # locals renamed since the rules were confirmed are renamed back (an alpha-conversion; see sa/alpha.py); explaining variables
                 # added since are substituted back, after which a second renaming pass may apply
                 tab = self.locals_table.get(name, {})
                 for _ in range(2):
                     for key, mapping in alpha.canonicalise(self.modules[name], tab):
                         self.alpha_applied.append("%s.%s: %s" % (name, key, ", ".join("%s->%s" % kv for kv in sorted(mapping.items()))))
+                    self.flags_fused = getattr(self, 'flags_fused', 0) + helpers.fuse_flag_dispatch(self.modules[name], tab)     # decision split from action
                     got = alpha.inline_new_temps(self.modules[name], tab)
                     self.temps_inlined += got
-                    if not got:
+                    got2 = helpers.inline_hoisted(self.modules[name], tab)              # the same for a new local read several times (hoisted loop invariant)
+                    self.hoisted_inlined += got2
+                    if not got and not got2:
                         break
                 self.loops_restored += alpha.restore_index_loops(self.modules[name], self.loop_table.get(name, set()))           # enumerate(X) / range(len(X)) written the other way since
                 self.comparisons_turned += alpha.orient_comparisons(self.modules[name], self.compare_table.get(name, set()))     # a == b written b == a since the rules were confirmed
                 self.conditionals_merged += alpha.merge_conditional_assignments(self.modules[name])                            # if c: x = a else: x = b  ->  x = a if c else b
+                self.one_armed_merged += helpers.merge_one_armed(self.modules[name], ifs_table.get(name, set()), tab)              # new `if c: x = E`  ->  x = E if c else x
                 alpha.normalise_polarity(self.modules[name])
+                helpers.ifexp_to_or(self.modules[name])                                # x if x else y  is  x or y
+                self.param_rebinds_inlined = getattr(self, 'param_rebinds_inlined', []) + helpers.inline_param_rebinds(name, self.modules[name], param_rebinds.get(name, set()))
         for m, tree in self.modules.items():
             imp, assigns = {}, {}
             for st in ast.walk(tree):     # imports may be function-local (rewriting.py, circuit.py)
